@@ -1,6 +1,6 @@
 (** Property C12 — the theorems the check counts as obligations.  Nothing but
     statements closed by [exact] and [Print Assumptions]. *)
-From HS Require Import Base.Prelude C12.Model C12.PaxosNode C12.PaxosSys C12.LockModel C12.Lock C12.MultiModel C12.Multi C12.ElectionModel C12.Election.
+From HS Require Import Base.Prelude C12.Model C12.PaxosNode C12.PaxosSys C12.PaxosAgree C12.LockModel C12.Lock C12.MultiModel C12.Multi C12.ElectionModel C12.Election.
 From Coq Require Import Sorted.
 Local Open Scope Z_scope.
 
@@ -56,6 +56,18 @@ Theorem c12_paxos_one_value_per_ballot : forall n sch s1 d1 s2 d2 k b x1 x2,
   In (s2, OAccept d2 k b x2) (sent (sys_run n sys_init sch)) -> x1 = x2.
 Proof. exact one_value_per_ballot. Qed.
 Print Assumptions c12_paxos_one_value_per_ballot.
+
+(** AGREEMENT (partial; the full statement "any two nodes that report a decided
+    value report the same value" additionally needs: response lists have
+    distinct senders, and a reported decision is a chosen value — both are
+    monitored by the oracle on every run, not proved).  Every schedule of a
+    cluster of at least 2 nodes along which phase-1 response lists have distinct
+    senders: two values each accepted by a majority under some ballot are equal. *)
+Theorem c12_paxos_agreement_partial : forall n, 2 <= n -> forall sch b v b' v',
+  dr_along n sys_init sch ->
+  chosen n (sys_run n sys_init sch) b v -> chosen n (sys_run n sys_init sch) b' v' -> v = v'.
+Proof. exact chosen_unique_partial. Qed.
+Print Assumptions c12_paxos_agreement_partial.
 
 (** FENCING TOKENS: for every sequence of acquire / try_acquire / release /
     lease-expiry calls (any lock names, requesters, tokens, waiter limit), the
